@@ -4,6 +4,8 @@ import DimodProofs.Stack
 import DimodProofs.SampleSetMore
 import DimodProofs.AsSamplesDispatch
 import DimodProofs.SortStable
+import DimodProofs.SamplesObject
+import Generated.SamplesState
 
 /-! # C14 — sample-set operations move whole rows and columns and never alter data
 
@@ -546,5 +548,74 @@ example : (Form.iterator [.sequence [.mapping [(.str "a", 1)] false], .tuple ⟨
 /-- equal keys keep their order: position 0 comes before position 2 -/
 example : List.Sublist [0, 2] (argsort [2, 1, 2, 1]) := argsort_concrete_stable _ 0 2 (by decide) (by decide) (by decide +kernel)
 end examples
+
+/-! ## r8f — label-addressed reads on ONE sample-set object along a history of lookups and in-place calls
+
+`keep_variables` / `drop_variables` / `samples()[rows, [labels…]]` resolve labels through the `Variables` object the
+`SamplesArray` shares with the sample set (`SamplesArray._getmultiindex`: `[variables.index(v) for v in col]`).  The object
+model `ObjOp` / `runObj` (`DimodModel/SamplesObject.lean`): in-place `relabel_variables` / `change_vartype` change the object,
+lookups leave it as it is — as coded no lookup stores anything on the instance (`Generated.SamplesState`, regenerated from
+the source on every run). -/
+section object_histories
+
+/-- a multi-column read returns, for every selected row and every requested label, the value the sample set holds in that
+    row under that label NOW (and is refused — `KeyError` — exactly when a requested label is not a current label) -/
+theorem getMulti_reads_current_cells (s : SS) (hwf : s.WF) (rowIdx : List Nat) (cols : List Label) :
+    (s.getMulti rowIdx cols = none ↔ ∃ v ∈ cols, v ∉ s.labels) ∧
+    ∀ out, s.getMulti rowIdx cols = some out →
+      out.map (·.map some) = (gather s.rows rowIdx).map fun r => cols.map (cell s.labels r.sample) :=
+  ⟨getMulti_none_iff s rowIdx cols, fun out h => (getMulti_spec s hwf rowIdx cols out h).2⟩
+
+/-- lookups are invisible: after ANY history of in-place calls and lookups on one object, the object is the one that saw the
+    in-place calls alone, and it is well-formed -/
+theorem object_history_lookups_invisible (ops : List ObjOp) (s : SS) (hwf : s.WF) :
+    runObj ops s = runObj (ops.filter (·.mutates)) s ∧ (runObj ops s).WF :=
+  ⟨runObj_filter ops s, runObj_wf ops s hwf⟩
+
+/-- … hence a read after any history of earlier lookups and in-place relabels / vartype changes answers for the labels and
+    values the object has at that moment (all histories, all sizes) -/
+theorem getMulti_after_history (ops : List ObjOp) (s : SS) (hwf : s.WF) (rowIdx : List Nat) (cols : List Label) (out : List (List Rat))
+    (h : (runObj ops s).getMulti rowIdx cols = some out) :
+    (∀ v ∈ cols, v ∈ (runObj (ops.filter (·.mutates)) s).labels) ∧
+    out.map (·.map some) = (gather (runObj (ops.filter (·.mutates)) s).rows rowIdx).map
+      fun r => cols.map (cell (runObj (ops.filter (·.mutates)) s).labels r.sample) := by
+  rw [runObj_filter ops s] at h
+  exact getMulti_spec _ (runObj_wf _ s hwf) rowIdx cols out h
+
+/-- an in-place relabel moves no datum: the value read under the NEW label of a column is the value that was under its old
+    label (one step of the history; with `getMulti_after_history` this fixes what every later lookup returns) -/
+theorem relabel_in_place_then_read (s : SS) (hwf : s.WF) (m : List (Label × Label)) (s' : SS) (h : s.relabel m = some s')
+    (r : Row) (v : Label) (hv : v ∈ s.labels) :
+    (ObjOp.relabelIp m).next s = s' ∧ s'.WF ∧ s'.rows = s.rows ∧
+    cell s'.labels r.sample ((LSpec.lookup (LSpec.dictOf m) v).getD v) = cell s.labels r.sample v := by
+  have hwf' := ssobj_relabel_wf s s' hwf m h
+  refine ⟨by simp [ObjOp.next, h], hwf', (relabel_frame s s' m h).1, relabel_cells s s' m h hwf'.1 r v hv⟩
+
+private def demo : SS :=
+  { labels := [.str "a", .str "b", .str "c"], vt := .binary, fields := [],
+    rows := [⟨[0, 0, 1], 3, 1, []⟩, ⟨[0, 1, 1], 1, 2, []⟩, ⟨[1, 0, 1], 2, 3, []⟩, ⟨[0, 0, 0], 0, 4, []⟩] }
+private def swap : List (Label × Label) := [(.str "a", .str "c"), (.str "c", .str "a")]
+
+/-- the hypotheses are met by a concrete object -/
+example : demo.WF := ⟨by decide +kernel, by intro r hr; simp only [demo, List.mem_cons, List.not_mem_nil, or_false] at hr; rcases hr with rfl | rfl | rfl | rfl <;> rfl⟩
+/-- keep [a, b] — swap a and c in place — read [a, b] again: column `a` is now the old column `c` -/
+example : (runObj [.keep [.str "a", .str "b"] false, .relabelIp swap, .getMulti [0, 1, 2, 3] [.str "a"]] demo).getMulti [0, 1, 2, 3] [.str "a", .str "b"]
+    = some [[1, 0], [1, 1], [1, 0], [0, 0]] := by decide +kernel
+/-- the same history on an object that keeps a label→index table checked by length only (the seeded variant): the second
+    read still returns the column that USED to be called `a` -/
+example : ((((CachedSS.mk demo none).getMulti [0, 1, 2, 3] [.str "a", .str "b"]).1.relabelIp swap).getMulti [0, 1, 2, 3] [.str "a", .str "b"]).2
+    = some [[0, 0], [0, 1], [1, 0], [0, 0]] := by decide +kernel
+/-- a label that was renamed away is refused, the new one is accepted -/
+example : ((runObj [.relabelIp [(.str "b", .str "z")]] demo).getMulti [0] [.str "b"],
+           (runObj [.relabelIp [(.str "b", .str "z")]] demo).getMulti [0] [.str "z", .str "c"]) = (none, some [[0, 1]]) := by decide +kernel
+/-- the source as it stands: no lookup stores anything on `SampleView` / `SamplesArray` / `Variables` (the only store outside
+    `__init__` is the counter of the deprecated iterator protocol), `_getmultiindex` resolves labels with `Variables.index`
+    only, and the object state of `SampleSet` / `cyVariables` is the modelled one -/
+example : Generated.SamplesState.storesOutsideInit = [("SamplesArray", "__next__", "_itercount")] := by decide +kernel
+example : Generated.SamplesState.getMultiCallsOnVariables = ["index"] := by decide +kernel
+example : Generated.SamplesState.sampleSetAttrs = ["_future_wait_id_result", "_info", "_record", "_result_hook", "_variables", "_vartype"] := by decide +kernel
+example : Generated.SamplesState.cyVariablesAttrs = ["_index_to_label", "_label_to_index", "_stop"] := by decide +kernel
+
+end object_histories
 
 end C14
